@@ -86,4 +86,26 @@ example : (h0.reqs 0).cpuRef < h0.next ∧ (h0.reqs 3).gpusRef < h0.next := by d
 
 theorem and_shallow_mutates : ((h0.andOp .shallow 0 3).1.val 0) ≠ h0.val 0 := by decide
 
+/-! ### non-vacuity of the named hypothesis `Heap.WF` (audit round 8, item 6) -/
+
+/-- `h0` — object 0: a request with a GPU list `[3]`, a CPU spec (memory 5, 1 core), duration 7; object 3: GPU `[1]`, CPU (9, 4) —
+    is a well-formed heap. -/
+theorem h0_WF : h0.WF := by
+  intro r _
+  by_cases h : r = 0 <;> simp [h0, h]
+
+/-- … its first request (GPU list and CPU spec) is matched by a concrete host … -/
+example : reqMatch (h0.val 0) { cuda := [{ memory := 4 }, { memory := 8 }], cpu := { memory := 16, cores := 2 }, priority := 2, maxDuration := 10 } = some 2 := by
+  decide
+
+/-- … and `and_deep_pure` / `mul_deep_pure` say something non-trivial on it: `a & b` has two GPUs (sorted) and the maxima, `a * 3` three GPUs, while
+    `a` and `b` keep their values (with the shallow copy `a` changes: `and_shallow_mutates`). -/
+example : (h0.andOp .deep 0 3).1.val 0 = h0.val 0 ∧ (h0.andOp .deep 0 3).1.val 3 = h0.val 3 ∧
+    (h0.andOp .deep 0 3).1.val (h0.andOp .deep 0 3).2 = (h0.val 0).add (h0.val 3) :=
+  and_deep_pure h0 0 3 h0_WF (by decide) (by decide)
+example : ((h0.val 0).add (h0.val 3)).gpus = [{ memory := 1 }, { memory := 3 }] ∧ ((h0.val 0).add (h0.val 3)).cpu = { memory := 9, cores := 4 } := by decide
+example : (h0.mulOp .deep 0 3).1.val 0 = h0.val 0 ∧ (h0.mulOp .deep 0 3).1.val (h0.mulOp .deep 0 3).2 = (h0.val 0).mul 3 :=
+  mul_deep_pure h0 0 3 h0_WF (by decide)
+example : ((h0.val 0).mul 3).gpus.length = 3 := by decide
+
 end XpmVerif.C18
